@@ -326,9 +326,151 @@ func runC12(p *an.Prog, r *an.Run, tier string) {
 		r.Check(len(why) == 0, "limit-agree", driverKind(d), m.Pos(), "limit > 0 caps the result, limit 0 means unlimited", "%s", strings.Join(why, "; "))
 	}
 
+	// ---- authorise: IsAccountNode answers nil exactly for a node that is linked AND linked to the given account: the
+	// successful return is reachable neither around the "link found" edge nor around the "stored account == argument"
+	// edge (a `&&` for the `||` of the refusal authorises every linked node for every account)
+	for _, d := range []*types.Named{mem, bad} {
+		m := p.MethodOf(d, "IsAccountNode")
+		if m == nil || len(m.Params) < 3 {
+			continue
+		}
+		region := regionOf(p, d, m)
+		if region == nil {
+			r.Undec("authorise", driverKind(d), m.Pos(), "IsAccountNode has no single critical region")
+			continue
+		}
+		accPrm := m.Params[1]
+		var found, equal []an.Edge
+		var stored []ssa.Value // values holding the stored account
+		for _, o := range driverOps(p, d, m) {
+			if o.Kind != opRead || !o.inSpace("account") {
+				continue
+			}
+			switch x := o.In.(type) {
+			case *ssa.Lookup:
+				if !x.CommaOk {
+					continue
+				}
+				for _, ref := range *x.Referrers() {
+					ex, ok := ref.(*ssa.Extract)
+					if !ok {
+						continue
+					}
+					if ex.Index == 0 {
+						stored = append(stored, ex)
+					}
+					if ex.Index == 1 {
+						for _, r2 := range *ex.Referrers() {
+							switch y := r2.(type) {
+							case *ssa.If:
+								found = append(found, an.Edge{From: y.Block(), To: y.Block().Succs[0]})
+							case *ssa.UnOp:
+								if y.Op == token.NOT {
+									for _, r3 := range *y.Referrers() {
+										if iff, ok := r3.(*ssa.If); ok {
+											found = append(found, an.Edge{From: iff.Block(), To: iff.Block().Succs[1]})
+										}
+									}
+								}
+							}
+						}
+					}
+				}
+			case ssa.CallInstruction:
+				found = append(found, an.ErrEdges(x).Succ...)
+				if o.Val != nil {
+					root, path := an.RootPath(underlyingConcrete(o.Val))
+					if path == "" && root != nil {
+						stored = append(stored, root) // the decode target (a local, or the closure's view of one)
+					}
+				}
+			}
+		}
+		isStored := func(v ssa.Value) bool {
+			v = stripConv(v)
+			for _, sv := range stored {
+				if v == sv {
+					return true
+				}
+				if u, ok := v.(*ssa.UnOp); ok && u.Op == token.MUL && sameObject(u.X, sv) {
+					return true
+				}
+			}
+			return false
+		}
+		isArg := func(v ssa.Value) bool {
+			v = stripConv(v)
+			if v == ssa.Value(accPrm) {
+				return true
+			}
+			if fv, ok := v.(*ssa.FreeVar); ok && fv.Name() == accPrm.Name() {
+				return true
+			}
+			if u, ok := v.(*ssa.UnOp); ok && u.Op == token.MUL {
+				if fv, ok := u.X.(*ssa.FreeVar); ok && fv.Name() == accPrm.Name() {
+					return true
+				}
+			}
+			return false
+		}
+		for _, fn := range an.WithAnon(m) {
+			an.AllInstrs(fn, func(in ssa.Instruction) {
+				bo, ok := in.(*ssa.BinOp)
+				if !ok || (bo.Op != token.EQL && bo.Op != token.NEQ) {
+					return
+				}
+				if !((isStored(bo.X) && isArg(bo.Y)) || (isStored(bo.Y) && isArg(bo.X))) {
+					return
+				}
+				for _, ref := range *bo.Referrers() {
+					if iff, ok := ref.(*ssa.If); ok {
+						i := 0
+						if bo.Op == token.NEQ {
+							i = 1
+						}
+						equal = append(equal, an.Edge{From: iff.Block(), To: iff.Block().Succs[i]})
+					}
+				}
+			})
+		}
+		var ab []string
+		if len(found) == 0 {
+			ab = append(ab, "no found-branch of the link lookup recognised")
+		}
+		if len(equal) == 0 {
+			ab = append(ab, "the stored account is never compared with the argument")
+		}
+		for _, cutSet := range []struct {
+			edges []an.Edge
+			what  string
+		}{{found, "the node's link having been found"}, {equal, "the stored account being equal to the one asked about"}} {
+			if len(cutSet.edges) == 0 {
+				continue
+			}
+			reach := an.ReachAvoiding(region, an.EdgeSet(cutSet.edges))
+			for _, b := range region.Blocks {
+				if !reach[b] {
+					continue
+				}
+				for _, in := range b.Instrs {
+					if ret, ok := in.(*ssa.Return); ok {
+						if cls, _ := returnClass(ret); cls == "nil" {
+							ab = append(ab, "the authorising return at "+p.Pos(ret.Pos())+" is reachable without "+cutSet.what)
+						}
+					}
+				}
+			}
+		}
+		r.Check(len(ab) == 0, "authorise", driverKind(d), m.Pos(), "nil <=> link found and stored account == argument", "%s.IsAccountNode: %s", driverKind(d), strings.Join(dedup(ab), "; "))
+	}
+
 	// ---- inverse indexes beside the contract's maps (auxindex.go)
 	checkAuxIndexes(p, r)
 	checkRetryClosures(p, r)
+	// CheckAndSaveNonce is part of the store contract both drivers implement (strict, atomic, fresh, keyed by identity);
+	// snapshots handed out by either driver stay what they were (big.Int ownership)
+	checkNonceStores(p, r)
+	checkBigIntOwnership(p, r)
 	checkKeyOperandTypes(p, r)
 
 	// ---- SetNode keeps peers
@@ -719,7 +861,37 @@ func checkSetNodeKeepsPeers(p *an.Prog, r *an.Run) {
 					}
 				}
 			}
-			r.Check(okKeep, "setnode-keeps-peers", "memory.SetNode", sn.Pos(), "a re-registered node keeps the peers tracked for it", "memory.SetNode stores a node entry whose peer set does not come from the existing entry: re-registering (every reconnect) forgets the node's tracked peers, unlike the persistent driver")
+			// ... and it is taken over where the existing entry was found, not on the branch where there is none
+			if okKeep {
+				for _, fn := range an.WithAnon(sn) {
+					an.AllInstrs(fn, func(in ssa.Instruction) {
+						st, ok := in.(*ssa.Store)
+						if !ok {
+							return
+						}
+						fv := an.FieldOf(st.Addr)
+						if fv == nil || an.Ident(fv.Name()) != "peers" {
+							return
+						}
+						for _, nd := range p.Derives(0, st.Val).Nodes {
+							lk, ok := nd.(*ssa.Lookup)
+							if !ok || memMapField(lk.X) != "nodes" || !lk.CommaOk {
+								continue
+							}
+							onFound := false
+							for _, ci := range an.ControllingIfs(st.Block()) {
+								if ex, ok := ci.If.Cond.(*ssa.Extract); ok && ex.Tuple == ssa.Value(lk) && ex.Index == 1 && ci.Succ == 0 {
+									onFound = true
+								}
+							}
+							if !onFound {
+								okKeep = false
+							}
+						}
+					})
+				}
+			}
+			r.Check(okKeep, "setnode-keeps-peers", "memory.SetNode", sn.Pos(), "a re-registered node keeps the peers tracked for it", "memory.SetNode stores a node entry whose peer set does not come from the existing entry (taken over where that entry was found): re-registering (every reconnect) forgets the node's tracked peers, unlike the persistent driver")
 			continue
 		}
 		var bad []string
